@@ -49,9 +49,24 @@ def design_rot(run):
     run.add_design("ManifestRot", r)
 
 
+def design_objsync(run):
+    """C10/C12: the object provider's directory-sync skipping protocol (ObjSync.tla)"""
+    vlib.sany(DUR, "ObjSync")
+    for cfg in ("BugObj_CurrentCounter.cfg", "BugObj_CurrentCounterNoGuard.cfg"):
+        r = vlib.tlc_must_fail(DUR, "ObjSync", cfg, expect="LastSyncSound", workers=2, timeout=300)
+        run.design["ObjSync/" + cfg] = dict(caught=r.violation, generated=r.generated)
+    cfg = open(os.path.join(DUR, "ObjSync.cfg")).read()
+    if run.tier != "quick":
+        cfg = cfg.replace("MaxObjs = 4", "MaxObjs = 6").replace("{p1, p2, p3}", "{p1, p2, p3, p4}")
+    r = vlib.tlc_must_pass(DUR, "ObjSync", "O.cfg", workers=4, timeout=900, extra_files={"O.cfg": cfg.encode()})
+    run.add_design("ObjSync", r)
+
+
 def design(run):
     if run.prop == "C22":
         design_rot(run)
+    if run.prop in ("C10", "C12"):
+        design_objsync(run)
     vlib.sany(DUR, "Durability")
     for cfg, expect in BUGS:
         r = vlib.tlc_must_fail(DUR, "Durability", cfg, expect=expect, workers=4, timeout=600)
